@@ -67,6 +67,61 @@ def sampler_ops(pcfg):
     return ops
 
 
+ENC_SPECS = [
+    # ISO-8859-1 letters whose upper-case form (U+0178, U+039C) is not a character of ISO-8859-1: the mask ULLL applies to them
+    {'encoding': 'iso-8859-1', 'terminals': {'A4': [['\u00ffves', '0.5'], ['\u00b5abc', '0.25'], ['abcd', '0.25']], 'C4': [['ULLL', '0.5'], ['LLLL', '0.5']],
+                                            'D2': [['12', '0.5'], ['77', '0.5']]},
+     'grammar': [['A4D2', '0.75'], ['D2', '0.25']], 'omen_prob': [], 'prince': [], 'mode': 'dyadic'},
+    # control: Cyrillic in cp1251, upper-case forms inside the encoding
+    {'encoding': 'cp1251', 'terminals': {'A3': [['\u043c\u0438\u0440', '0.5'], ['\u0434\u043e\u043c', '0.5']], 'C3': [['ULL', '0.5'], ['LLL', '0.5']],
+                                        'D1': [['1', '0.5'], ['2', '0.5']]},
+     'grammar': [['A3D1', '0.5'], ['A3', '0.5']], 'omen_prob': [], 'prince': [], 'mode': 'dyadic'},
+]
+
+
+def cli_encoding_case(k, N, mode):
+    """the program itself (stdout of the consumer declared UTF-8) on a ruleset stored in a one-byte encoding: exactly N lines, every
+    line a word of the ruleset's language, random_walk identical on a second run and identical to the in-process generator"""
+    import corr_pq
+    from lib_guesser.honeyword_session import HoneywordSession
+    spec = ENC_SPECS[k]
+    name = f"c16enc{k}"
+    d = common.install_ruleset(spec, name)
+    common.use_impl()
+    pcfg = common.load_grammar(d)
+    lang = set()
+    pq = corr_pq.fresh_queue(pcfg)
+    while True:
+        it = pq.next()
+        if it is None:
+            break
+        lang.update(corr_expand.product_oracle(pcfg, it['pt']) or [])
+    wit = {'enc_spec': k, 'limit': N, 'mode': mode}
+    outs = []
+    for rep in range(2 if mode == 'random_walk' else 1):
+        o, e, rc = common.run_cli('pcfg_guesser.py', ['-r', name, '-m', mode, '-n', str(N)], stdin='pipe-open')
+        outs.append(o)
+    viol = []
+    try:
+        lines = outs[0].decode('utf-8').split('\n')
+    except UnicodeDecodeError:
+        return [{'property': 'C16', 'kind': 'stdout-not-in-declared-encoding', 'head': repr(outs[0][:60]), 'witness': wit}]
+    if lines and lines[-1] == '':
+        lines.pop()
+    bad = [l for l in lines if l not in lang]
+    if len(lines) != N or bad:
+        viol.append({'property': 'C16', 'kind': 'count' if not bad else 'not-in-language', 'lines': len(lines), 'limit': N, 'not_words': bad[:3], 'witness': wit})
+    if mode == 'random_walk':
+        if outs[0] != outs[1]:
+            viol.append({'property': 'C16', 'kind': 'random-walk-not-reproducible', 'witness': wit})
+        buf = io.StringIO()
+        with contextlib.redirect_stdout(buf), contextlib.redirect_stderr(io.StringIO()):
+            HoneywordSession(pcfg, 'random_walk').run(limit=N)
+        if buf.getvalue().split('\n')[:-1] != lines:
+            viol.append({'property': 'C16', 'kind': 'program-differs-from-generator', 'program_lines': len(lines), 'witness': wit})
+    return viol
+
+
 def run(ctx):
     rng = ctx.rng
     common.use_impl()
@@ -236,6 +291,12 @@ def run(ctx):
                 viol.append({'property': 'C16', 'kind': 'random-walk-not-reproducible', 'witness': {'spec': heavy, 'limit': N, 'mode': mode_h}})
     except Exception as e:
         viol.append({'property': 'C16', 'kind': 'walk-raised', 'error': repr(e)[:200], 'mode': 'markov-heavy', 'witness': {'spec': heavy, 'limit': 100}})
+    # the program, on rulesets stored in one-byte encodings
+    for k in range(len(ENC_SPECS)):
+        for mode_c in (('random_walk',) if ctx.quick else ('random_walk', 'honeywords')):
+            viol += cli_encoding_case(k, ctx.scale(24, 80), mode_c)
+            cases += 1
+            dist['cli_encoding_runs'] = dist.get('cli_encoding_runs', 0) + 1
     if ctx.driver_ok:
         out = common.run_driver(ops)
         for i, (a, b) in enumerate(zip(out, exp)):
@@ -258,6 +319,8 @@ def run(ctx):
 
 def replay(ctx, payload):
     w = payload.get('violation', {}).get('witness') or {}
+    if 'enc_spec' in w:
+        return cli_encoding_case(w['enc_spec'], w['limit'], w['mode'])
     if 'spec' not in w:
         return []
     common.use_impl()
